@@ -21,7 +21,7 @@ ASSUMPTIONS = ["Sobol / HSIC maps are compared within rtol 1e-3, atol 1e-4 max|m
                "that the draws are the same for every batch size",
                "tolerance rtol 2e-5 / atol 2e-6: float32 reductions may be grouped differently when the batch changes"]
 
-DETERMINISTIC = ["Saliency", "GradientInput", "IntegratedGradients", "SmoothGrad0", "SquareGrad0", "VarGrad0", "DeconvNet",
+DETERMINISTIC = ["SaliencySeg", "Saliency", "GradientInput", "IntegratedGradients", "SmoothGrad0", "SquareGrad0", "VarGrad0", "DeconvNet",
                  "GuidedBackprop", "GradCAM", "GradCAMPP", "Occlusion"]
 SAMPLING = ["Sobol", "HSIC", "HSIC_est", "Lime", "KernelShap"]
 METRICS = ["Deletion", "Insertion", "MuFidelityExact"]
@@ -37,11 +37,14 @@ def gen_case(rng, what):
     cands = [1, 2, 3, max(1, w - 1), w, w + 1, n * w + 1, None, rng.randint(1, n * w + 2)]
     if what in METRICS:
         cands = [1, 2, 2, 3, n - 1, n, n + 1, None]
+    if what == "MuFidelityExact":
+        # nb_samples = 6: batch sizes holding two or three inputs per input batch (12.., 18..) with a ragged last one
+        cands = [1, 2, 5, 6, 7, 12, 13, 18, 20, 24, None]
     bss = []
     for b in rng.sample(cands, len(cands)):
         if b not in bss:
             bss.append(b)
-    bss = bss[:4]
+    bss = bss[:6 if what == "MuFidelityExact" else 4]
     if None not in bss and what not in ("Lime", "KernelShap"):
         bss[-1] = None
     sel = None
@@ -90,6 +93,18 @@ def conv_model(seed, nout=3):
     return m
 
 
+def seg_model(seed):
+    """a small segmentation head: (8, 8, 1) -> per-pixel scores of 2 classes (8, 8, 2)"""
+    import tensorflow as tf
+    rs = np.random.RandomState(seed % (1 << 31))
+    inp = tf.keras.Input((8, 8, 1))
+    x = tf.keras.layers.Conv2D(3, 3, padding="same", activation="relu", name="conv")(inp)
+    x = tf.keras.layers.Conv2D(2, 1, name="pixel_logits")(x)
+    m = tf.keras.Model(inp, x)
+    m.set_weights([(rs.randint(-2, 3, size=w.shape) / 2.0).astype(np.float32) for w in m.get_weights()])
+    return m
+
+
 def linear_model(seed):
     import tensorflow as tf
     rs = np.random.RandomState(seed % (1 << 31))
@@ -132,6 +147,9 @@ def build(what, model, bs, x, t, variant=0):
             return getattr(M, what)(model, x, t, batch_size=bs, steps=-1, baseline_mode=0.5, max_percentage_perturbed=0.5)
         if what == "MuFidelity":
             return M.MuFidelity(model, x, t, batch_size=bs, grid_size=2, nb_samples=6, subset_percent=0.5, baseline_mode=0.5)
+    if what == "SaliencySeg":
+        # a task operator that reduces over the zone of EACH sample (zones of different sizes in one batch)
+        return A.Saliency(model, batch_size=bs, operator="semantic segmentation")
     if what == "Saliency":
         return A.Saliency(model, batch_size=bs)
     if what == "GradientInput":
@@ -183,6 +201,12 @@ def run_impl(case):
     t = np.eye(3, dtype=np.float32)[rs.randint(0, 3, size=n)] if nout == 3 else \
         (rs.choice([-1.0, 1.0, 0.5], size=(n, 1))).astype(np.float32)
     model = linear_model(case["model_seed"]) if what == "MuFidelityExact" else conv_model(case["model_seed"], nout)
+    if what == "SaliencySeg":
+        model = seg_model(case["model_seed"])
+        t = np.zeros((n, 8, 8, 2), np.float32)
+        for i in range(n):                       # one rectangular zone per sample, of its own size and class
+            h0, w0 = rs.randint(0, 6), rs.randint(0, 6)
+            t[i, h0:h0 + 1 + rs.randint(1, 3 + i), w0:w0 + 1 + rs.randint(1, 3), rs.randint(0, 2)] = 1.0
     eager_before = tf.config.functions_run_eagerly()
     if what in SAMPLING or what == "MuFidelityExact":
         tf.config.run_functions_eagerly(True)
@@ -191,6 +215,12 @@ def run_impl(case):
             if what == "MuFidelityExact":
                 W = model.get_weights()[0].reshape(8, 8, 1, 3)
                 expl = np.einsum("nhwc,hwck,nk->nhwc", x, W, t).astype(np.float32)      # w_i * (x_i - 0), baseline 0
+                # exact attributions for some samples, negated ones for the others: the per-sample correlations are
+                # exactly +1 / -1 whatever the random subsets, so the metric must be mean(signs) for EVERY batch size
+                signs = np.where(np.arange(n) % 3 == 1, -1.0, 1.0).astype(np.float32)
+                if case["seed"] % 2:
+                    signs = -signs
+                expl = expl * signs[:, None, None, None]
             else:
                 expl = (rs.randint(-64, 65, size=(n, 8, 8, 1)) / 64.0 + np.arange(64).reshape(1, 8, 8, 1) * 1e-3).astype(np.float32)
         outs = {}
@@ -233,7 +263,9 @@ def run_impl(case):
     finite = all(bool(np.all(np.isfinite(v))) for v in outs.values())
     exact_one = None
     if what == "MuFidelityExact":
-        exact_one = all(abs(float(v[0]) - 1.0) < 1e-6 for v in outs.values())
+        signs = np.where(np.arange(n) % 3 == 1, -1.0, 1.0)
+        want = float(signs.mean()) * (-1.0 if case["seed"] % 2 else 1.0)
+        exact_one = all(abs(float(v[0]) - want) < 1e-6 for v in outs.values())
     return dict(reference_batch_size=keys[0], agree=agree, finite=finite, selection_ok=sel_ok, selection_detail=sel_detail,
                 mufidelity_is_one=exact_one,
                 head={k: np.asarray(v).reshape(-1)[:6].tolist() for k, v in outs.items()},
